@@ -563,24 +563,78 @@ pub fn exec(lineno: usize, l: &str) -> String {
             }
         },
         // projection for C09: seven <= every six-subset <= every five-subset, and the minima are attained
-        "chain7" => {
+        "chain7" | "chain7s" => {
             let v = nums();
             let ws: Vec<u32> = v.iter().map(|x| *x as u32).collect();
             let r = guard(|| {
-                let v7 = Seven::from(a7(&v)).hand_rank_value();
+                // chain7s: the same relation with every container built through the OTHER construction paths
+                // (Default + setters, Seven::new, Six::from_1_and_2_and_3, Five::new)
+                let via_setters = op == "chain7s";
+                let mk7 = |w: &[u64]| -> Seven {
+                    if via_setters {
+                        let mut s = Seven::default();
+                        s.set_first(w[0] as u32);
+                        s.set_second(w[1] as u32);
+                        s.set_third(w[2] as u32);
+                        s.set_forth(w[3] as u32);
+                        s.set_fifth(w[4] as u32);
+                        s.set_sixth(w[5] as u32);
+                        s.set_seventh(w[6] as u32);
+                        let t = Seven::new(Two::from(a2(&w[0..2])), Five::from(a5(&w[2..7])));
+                        if w[0] % 2 == 0 { s } else { t }
+                    } else {
+                        Seven::from(a7(w))
+                    }
+                };
+                let mk6 = |w: &[u64]| -> Six {
+                    if via_setters {
+                        if w[1] % 2 == 0 {
+                            Six::from_1_and_2_and_3(w[0] as u32, Two::from(a2(&w[1..3])), Three::from(a3(&w[3..6])))
+                        } else {
+                            let mut s = Six::default();
+                            s.set_first(w[0] as u32);
+                            s.set_second(w[1] as u32);
+                            s.set_third(w[2] as u32);
+                            s.set_forth(w[3] as u32);
+                            s.set_fifth(w[4] as u32);
+                            s.set_sixth(w[5] as u32);
+                            s
+                        }
+                    } else {
+                        Six::from(a6(w))
+                    }
+                };
+                let mk5 = |w: &[u64]| -> Five {
+                    if via_setters {
+                        if w[2] % 2 == 0 {
+                            Five::new(w[0] as u32, w[1] as u32, w[2] as u32, w[3] as u32, w[4] as u32)
+                        } else {
+                            let mut s = Five::default();
+                            s.set_first(w[0] as u32);
+                            s.set_second(w[1] as u32);
+                            s.set_third(w[2] as u32);
+                            s.set_forth(w[3] as u32);
+                            s.set_fifth(w[4] as u32);
+                            s
+                        }
+                    } else {
+                        Five::from(a5(w))
+                    }
+                };
+                let v7 = mk7(&v).hand_rank_value();
                 let mut ok76 = true;
                 let mut ok65 = true;
                 let mut min6 = u16::MAX;
                 let mut min_ok = true;
                 for skip in 0..7 {
                     let six: Vec<u64> = (0..7).filter(|i| *i != skip).map(|i| u64::from(ws[i])).collect();
-                    let v6 = Six::from(a6(&six)).hand_rank_value();
+                    let v6 = mk6(&six).hand_rank_value();
                     ok76 &= v7 <= v6;
                     min6 = min6.min(v6);
                     let mut min5 = u16::MAX;
                     for skip5 in 0..6 {
                         let five: Vec<u64> = (0..6).filter(|i| *i != skip5).map(|i| six[i]).collect();
-                        let v5 = Five::from(a5(&five)).hand_rank_value();
+                        let v5 = mk5(&five).hand_rank_value();
                         ok65 &= v6 <= v5;
                         min5 = min5.min(v5);
                     }
